@@ -50,7 +50,7 @@ class World:
         n = StackNode(self.bus, name, self.j1939, dll or self.dll, **kw)
         self.stacks.append(n)
         st = n.job_state
-        if st is None or not isinstance(getattr(n.ecu, '_job_thread', None), engine.SimThread):
+        if st is None:
             self.harness_problems.append('job thread of %s is not under the virtual scheduler' % name)
         return n
 
